@@ -112,6 +112,11 @@ def build_operator(kind, mats, classes=None):
         return 3 * cl["mvonly"](m), m * 3
     if kind == "matmul":
         return cl["mvrmv"](m).matmul(cl["mvrmv"](mats[1])), torch.matmul(m, mats[1])
+    if kind == "matmul_herm":
+        # product of two Hermitian-flagged operators (the caller passes Hermitian matrices): not Hermitian unless they commute
+        return cl["mvonly"](m, is_hermitian=True).matmul(cl["mvonly"](mats[1], is_hermitian=True)), torch.matmul(m, mats[1])
+    if kind == "matmul_herm_dense":
+        return LinearOperator.m(m, is_hermitian=True).matmul(cl["mvonly"](mats[1], is_hermitian=True)), torch.matmul(m, mats[1])
     if kind == "adjoint":
         return cl["mvrmv"](m).H, m.transpose(-2, -1).conj()
     if kind == "add_dense":
@@ -120,4 +125,4 @@ def build_operator(kind, mats, classes=None):
 
 
 def nmats(kind):
-    return 2 if kind in ("add", "sub", "matmul", "add_dense") else 1
+    return 2 if kind in ("add", "sub", "matmul", "add_dense", "matmul_herm", "matmul_herm_dense") else 1
